@@ -213,6 +213,22 @@ def run_shard(desc):
         judge([np.array(u) for u in ind.ubis], "repeated-search[%s]" % mode, case2)
         sh.evaluations += 1
         sh.nontrivial += 1
+    # (c) ONE unitcell object shared by two searches whose ring tables differ (a coarse ds_tol first, with a minpks nothing reaches, then
+    # the fine one), the generating rings restricted to two rings: ring numbers mean different reflections in the two tables
+    fine = sorted(mults)
+    two = sorted(sorted(fine, key=lambda d: (-mults[d], d))[:2])
+    if len(fine) >= 3:
+        uc = ucm.unitcell(cell, sym)
+        case2 = {"lattice": li, "cell": cell, "sym": sym, "ngrains": ng, "data": "shared_unitcell:coarse_then_fine_ring_table", "seed": seed_of()}
+        for ds_tol, minp in ((0.05, nref + 1), (0.005, int(0.5 * nref))):
+            ind = indexing.indexer(unitcell=uc, gv=allgv.copy(), cosine_tol=0.002, minpks=minp, hkl_tol=0.02, ds_tol=ds_tol, wavelength=0.3, uniqueness=0.5,
+                                   max_grains=100)
+            ind.assigntorings()
+            rids = sorted(set(int(np.argmin(np.abs(np.array(uc.ringds) - d))) for d in two))
+            ind.score_all_pairs(rings_to_use=rids + ([rids[0] + 1] if len(rids) == 1 and rids[0] + 1 < len(uc.ringds) else []))
+        judge([np.array(u) for u in ind.ubis], "shared-unitcell[coarse then fine ring table]", case2)
+        sh.evaluations += 1
+        sh.nontrivial += 1
     sh.sample(dict(case, reflections_per_grain=nref, found=len(found)), limit=1)
     return sh
 
